@@ -431,6 +431,56 @@ func (d *dataView) DescribeDatabase(ctx context.Context, param *coreapi.Describe
 	return nil
 }
 
+// ---- operation messages (replicate channel): each request is one visible step of kind "ddl"
+
+func repTs(b *commonpb.MsgBase) (int, bool) {
+	if b == nil || b.ReplicateInfo == nil {
+		return -1, false
+	}
+	return ModelT(b.ReplicateInfo.MsgTimestamp), b.ReplicateInfo.IsReplicate
+}
+
+func (d *dataView) opStep(kind, db, name string, b *commonpb.MsgBase) error {
+	rts, isrep := repTs(b)
+	return d.w.step(d.epoch, hx.Event{"ev": "ddl", "kind": kind, "db": db, "name": name, "rts": rts, "isrep": isrep}, &d.w.FailDDL, nil)
+}
+
+func (d *dataView) CreateIndex(ctx context.Context, param *coreapi.CreateIndexParam) error {
+	return d.opStep("createindex", param.Database, param.GetCollectionName(), param.GetBase())
+}
+
+func (d *dataView) DropIndex(ctx context.Context, param *coreapi.DropIndexParam) error {
+	return d.opStep("dropindex", param.Database, param.GetCollectionName(), param.GetBase())
+}
+
+func (d *dataView) LoadCollection(ctx context.Context, param *coreapi.LoadCollectionParam) error {
+	return d.opStep("loadcollection", param.Database, param.GetCollectionName(), param.GetBase())
+}
+
+func (d *dataView) ReleaseCollection(ctx context.Context, param *coreapi.ReleaseCollectionParam) error {
+	return d.opStep("releasecollection", param.Database, param.GetCollectionName(), param.GetBase())
+}
+
+func (d *dataView) Flush(ctx context.Context, param *coreapi.FlushParam) error {
+	return d.opStep("flush", param.Database, strings.Join(param.GetCollectionNames(), ","), param.GetBase())
+}
+
+func (d *dataView) CreateDatabase(ctx context.Context, param *coreapi.CreateDatabaseParam) error {
+	return d.opStep("createdatabase", param.GetDbName(), "", param.GetBase())
+}
+
+func (d *dataView) DropDatabase(ctx context.Context, param *coreapi.DropDatabaseParam) error {
+	return d.opStep("dropdatabase", param.GetDbName(), "", param.GetBase())
+}
+
+func (d *dataView) CreateUser(ctx context.Context, param *coreapi.CreateUserParam) error {
+	return d.opStep("createuser", "", param.GetUsername(), param.GetBase())
+}
+
+func (d *dataView) CreateRole(ctx context.Context, param *coreapi.CreateRoleParam) error {
+	return d.opStep("createrole", "", param.GetEntity().GetName(), param.GetBase())
+}
+
 // ---------------------------------------------------------------- source catalog for the collection reader
 
 type srcMeta struct {
